@@ -24,6 +24,7 @@ var clauseTags = map[string][]string{
 	"read.absent":      {"C02"},
 	"bucket.semantics": {"C02"},
 	"copy.semantics":   {"C02", "C01"},
+	"fault.clean":      {"C02", "C01", "C10"},
 	"list.exact":       {"C03"},
 	"page.walk":        {"C04"},
 	"page.fallback":    {"C04"},
